@@ -51,6 +51,7 @@ type Block struct {
 	Func   string // "Recv.M" or "F"
 	Name   string // name of the generated definition
 	Anchor string // source text of the condition of the `if` whose body is extracted
+	Cond   bool   // extract the CONDITION itself (a boolean function of its free variables) instead of the body
 }
 
 type absBase struct {
@@ -83,6 +84,60 @@ type absCtx struct {
 	scalars  map[string]bool              // names of the scalar parameters
 	ptrSlices map[string]bool             // parameters of type *[]byte, threaded as the slice they point to
 	noJoin    map[ast.Stmt]bool           // switch statements being translated as a join (recursion guard)
+	foreign   []absForeign                // state objects of other translated types reached through a field (self.p): threaded
+	views     map[string]absView          // locals bound to element idx of a table: s := (*T)(rt.IndexPtr(tbl, size, idx))
+	loops     []absLoop                   // enclosing counted loops being translated (innermost last)
+	nloop     int
+}
+
+// an element of an abstract table: its atoms are function-valued atoms (index -> value) of the table object
+type absView struct{ table, idxVar string }
+
+type absLoop struct{ cont, brk string }
+
+// a protocol object reached through a field of an abstract object (self.p) whose type has declared State in its own module:
+// its state fields are parameters and trailing results of the definition, and calls of its translated methods are real calls
+type absForeign struct {
+	base, path string
+	fields     []string
+	tys        []string
+}
+
+func (f absForeign) vars() []string {
+	var out []string
+	for _, fl := range f.fields {
+		out = append(out, lv(f.base+"_"+f.path+"_"+fl))
+	}
+	return out
+}
+
+// foreignCall: ce is  base.path.M(args)  with M a translated, state-threaded method of another type
+func (tr *translator) foreignCall(ce *ast.CallExpr) (app string, nres int, f *absForeign, ok bool) {
+	if tr.abs == nil {
+		return "", 0, nil, false
+	}
+	name, recvX, threaded, known := tr.calleeName(ce.Fun)
+	if !known || !threaded || recvX == nil {
+		return "", 0, nil, false
+	}
+	b, p, isPath := tr.absPath(recvX)
+	if !isPath || p == "" {
+		return "", 0, nil, false
+	}
+	for i := range tr.abs.foreign {
+		if tr.abs.foreign[i].base == b && tr.abs.foreign[i].path == p {
+			f = &tr.abs.foreign[i]
+		}
+	}
+	if f == nil {
+		return "", 0, nil, false
+	}
+	args := append([]string{}, f.vars()...)
+	for _, a := range ce.Args {
+		args = append(args, tr.expr(a))
+	}
+	sig := tr.typeOf(ce.Fun).(*types.Signature)
+	return "(" + name + " " + strings.Join(args, " ") + ")", sig.Results().Len(), f, true
 }
 
 func (a *absCtx) outVar(base, path string) (string, bool) {
@@ -143,6 +198,9 @@ func (tr *translator) absPath(e ast.Expr) (base string, path string, ok bool) {
 		if _, is := a.bases[e.Name]; is {
 			return e.Name, "", true
 		}
+		if _, is := a.views[e.Name]; is {
+			return e.Name, "", true
+		}
 	case *ast.SelectorExpr:
 		b, p, ok := tr.absPath(e.X)
 		if !ok {
@@ -186,12 +244,45 @@ func (tr *translator) atomRef(base, path, ty string) string {
 	if v, ok := a.outVar(base, path); ok {
 		return v
 	}
+	if v, isView := a.views[base]; isView {
+		tb := a.bases[v.table]
+		fty := "Z -> " + ty
+		if old, ok := tb.atoms[path]; ok && old != fty {
+			fail(nil, "atom %s.%s used at two types", v.table, path)
+		}
+		tb.atoms[path] = fty
+		return "(" + a.def + "_" + v.table + "_" + path + " " + lv(v.table) + " " + v.idxVar + ")"
+	}
 	b := a.bases[base]
 	if old, ok := b.atoms[path]; ok && old != ty {
 		fail(nil, "atom %s.%s used at two types", base, path)
 	}
 	b.atoms[path] = ty
 	return "(" + a.def + "_" + base + "_" + path + " " + lv(base) + ")"
+}
+
+// viewPattern:  (*T)(rt.IndexPtr(tbl, size, idx))  with tbl an abstract object
+func (tr *translator) viewPattern(e ast.Expr) (table string, idx ast.Expr, ok bool) {
+	ce, isc := e.(*ast.CallExpr)
+	if !isc || len(ce.Args) != 1 {
+		return "", nil, false
+	}
+	if tv, has := tr.pi.info.Types[ce.Fun]; !has || !tv.IsType() {
+		return "", nil, false
+	}
+	in, isc := ce.Args[0].(*ast.CallExpr)
+	if !isc || len(in.Args) != 3 {
+		return "", nil, false
+	}
+	se, iss := in.Fun.(*ast.SelectorExpr)
+	if !iss || se.Sel.Name != "IndexPtr" {
+		return "", nil, false
+	}
+	id, isid := in.Args[0].(*ast.Ident)
+	if !isid {
+		return "", nil, false
+	}
+	return id.Name, in.Args[2], true
 }
 
 // expression hook (called by expr after the constant check)
@@ -246,6 +337,13 @@ func (tr *translator) absExpr(e ast.Expr) (string, bool) {
 func (tr *translator) isOpaqueCall(ce *ast.CallExpr) bool {
 	if tv, ok := tr.pi.info.Types[ce.Fun]; ok && tv.IsType() {
 		return false
+	}
+	if se, ok := ce.Fun.(*ast.SelectorExpr); ok && se.Sel.Name == "IndexPtr" && len(ce.Args) == 3 {
+		if id, isid := ce.Args[0].(*ast.Ident); isid && tr.abs != nil {
+			if _, isb := tr.abs.bases[id.Name]; isb {
+				return false // element of an abstract table: a read (function-valued atom), not an effect
+			}
+		}
 	}
 	switch f := ce.Fun.(type) {
 	case *ast.Ident:
@@ -392,6 +490,10 @@ func (tr *translator) absTuple(vals []string) string {
 	if a.hasEffDecl {
 		all = append(all, "eff_")
 	}
+	all = append(all, tr.statePat()...)
+	for _, f := range a.foreign {
+		all = append(all, f.vars()...)
+	}
 	if len(all) == 0 {
 		return "tt"
 	}
@@ -473,6 +575,14 @@ func (tr *translator) assignedIn(n ast.Node, from token.Pos) (vars []string, eff
 			}
 			fail(e, "assignment target %s inside a branch", srcOf(e))
 		case *ast.SelectorExpr:
+			if id, ok := e.X.(*ast.Ident); ok && tr.recvState != nil && id.Name == tr.recvName {
+				v := tr.lhs(e)
+				if !seen[v] {
+					seen[v] = true
+					vars = append(vars, v)
+				}
+				return
+			}
 			if b, p, ok := tr.absPath(e); ok && p != "" {
 				if v, ok := tr.abs.outVar(b, p); ok && !seen[v] {
 					seen[v] = true
@@ -568,6 +678,20 @@ func (tr *translator) absStmt(list []ast.Stmt, k func() string) (string, bool) {
 			}
 			return pre + tr.blockRet("Out_return"), true
 		}
+		if len(s.Results) == 1 && !a.block {
+			if ce, isc := s.Results[0].(*ast.CallExpr); isc {
+				if app, n, f, ok := tr.foreignCall(ce); ok {
+					if n != len(tr.resultTys) {
+						fail(s, "result arity mismatch in tail call")
+					}
+					var rs []string
+					for i := 0; i < n; i++ {
+						rs = append(rs, fmt.Sprintf("r%d_", i))
+					}
+					return "let '(" + strings.Join(append(append([]string{}, rs...), f.vars()...), ", ") + ") := " + app + " in\n" + tr.retTuple(rs), true
+				}
+			}
+		}
 		if names, ok := a.retOracles[s]; ok {
 			return tr.effect(s.Results[0].(*ast.CallExpr)) + tr.retTuple(names), true
 		}
@@ -581,7 +705,20 @@ func (tr *translator) absStmt(list []ast.Stmt, k func() string) (string, bool) {
 			}
 			return "(match " + v + " with Some r_ => Some " + tr.absTuple([]string{"r_"}) + " | None => None end)", true
 		}
+	case *ast.ForStmt:
+		if out, ok := tr.absFor(s, rest); ok {
+			return out, true
+		}
 	case *ast.BranchStmt:
+		if len(a.loops) > 0 && s.Label == nil {
+			l := a.loops[len(a.loops)-1]
+			switch s.Tok {
+			case token.BREAK:
+				return l.brk, true
+			case token.CONTINUE:
+				return l.cont, true
+			}
+		}
 		if a.block && s.Label == nil {
 			switch s.Tok {
 			case token.CONTINUE:
@@ -594,6 +731,14 @@ func (tr *translator) absStmt(list []ast.Stmt, k func() string) (string, bool) {
 		if ce, ok := s.X.(*ast.CallExpr); ok {
 			if id, ok := ce.Fun.(*ast.Ident); ok && id.Name == "panic" {
 				return "", false
+			}
+			if app, n, f, ok := tr.foreignCall(ce); ok {
+				pat := make([]string, n)
+				for i := range pat {
+					pat[i] = "_"
+				}
+				pat = append(pat, f.vars()...)
+				return "let '(" + strings.Join(pat, ", ") + ") := " + app + " in\n" + rest(), true
 			}
 			if w, ok := tr.inPlaceCall(ce); ok {
 				return w(rest), true
@@ -613,6 +758,29 @@ func (tr *translator) absStmt(list []ast.Stmt, k func() string) (string, bool) {
 			}
 		}
 	case *ast.AssignStmt:
+		if len(s.Lhs) == 1 && len(s.Rhs) == 1 && s.Tok == token.DEFINE {
+			if id, isid := s.Lhs[0].(*ast.Ident); isid {
+				if v, isView := a.views[id.Name]; isView {
+					_, idx, _ := tr.viewPattern(s.Rhs[0])
+					return "let " + v.idxVar + " := " + tr.expr(idx) + " in\n" + rest(), true
+				}
+			}
+		}
+		if len(s.Rhs) == 1 && (s.Tok == token.DEFINE || s.Tok == token.ASSIGN) {
+			if ce, isc := s.Rhs[0].(*ast.CallExpr); isc {
+				if app, n, f, ok := tr.foreignCall(ce); ok {
+					if n != len(s.Lhs) {
+						fail(s, "assignment arity")
+					}
+					var pat []string
+					for _, l := range s.Lhs {
+						pat = append(pat, tr.lhs(l))
+					}
+					pat = append(pat, f.vars()...)
+					return "let '(" + strings.Join(pat, ", ") + ") := " + app + " in\n" + rest(), true
+				}
+			}
+		}
 		if names, ok := a.oracles[s]; ok {
 			ce := s.Rhs[0].(*ast.CallExpr)
 			out := tr.effect(ce)
@@ -752,12 +920,38 @@ func (tr *translator) absDefinition(defName, srcName string, fd *ast.FuncDecl, b
 
 	// variables visible as parameters
 	var vars []absVar
+	var stateParams, stateTys, foreignTys []string
 	body := fd.Body
 	if blk == nil {
 		if sig.Recv() != nil && len(fd.Recv.List[0].Names) > 0 {
 			rt := sig.Recv().Type()
 			st, isStruct := under(rt).(*types.Struct)
-			if !(isStruct && st.NumFields() == 0) {
+			stateDone := false
+			if pt, isp := rt.(*types.Pointer); isp {
+				if nm, isn := pt.Elem().(*types.Named); isn {
+					if fields, has := tr.t.State[nm.Obj().Name()]; has {
+						// a receiver whose state fields are declared in the target is threaded as in the classic mode
+						// (its fields are parameters and trailing results), so that translated methods can call each other
+						tr.recvState, tr.recvName, tr.recvType = fields, fd.Recv.List[0].Names[0].Name, nm.Obj().Name()
+						sst := under(pt.Elem()).(*types.Struct)
+						for _, f := range fields {
+							var ft types.Type
+							for i := 0; i < sst.NumFields(); i++ {
+								if sst.Field(i).Name() == f {
+									ft = sst.Field(i).Type()
+								}
+							}
+							if ft == nil {
+								fail(fd, "state field %s not found", f)
+							}
+							stateParams = append(stateParams, "("+lv(tr.recvName+"_"+f)+" : "+tr.coqType(fd, ft)+")")
+							stateTys = append(stateTys, tr.coqType(fd, ft))
+						}
+						stateDone = true
+					}
+				}
+			}
+			if !stateDone && !(isStruct && st.NumFields() == 0) {
 				vars = append(vars, absVar{fd.Recv.List[0].Names[0].Name, rt, fd.Recv.Pos()})
 			}
 		}
@@ -797,6 +991,7 @@ func (tr *translator) absDefinition(defName, srcName string, fd *ast.FuncDecl, b
 
 	// locals bound to the opaque result of an untranslated call: oracle bases
 	var oracles []absVar
+	var viewDefs []*ast.AssignStmt
 	ast.Inspect(body, func(x ast.Node) bool {
 		as, ok := x.(*ast.AssignStmt)
 		if !ok || as.Tok != token.DEFINE || len(as.Lhs) != 1 || len(as.Rhs) != 1 {
@@ -807,6 +1002,10 @@ func (tr *translator) absDefinition(defName, srcName string, fd *ast.FuncDecl, b
 			return true
 		}
 		if _, ok := as.Rhs[0].(*ast.CallExpr); !ok {
+			return true
+		}
+		if _, _, isView := tr.viewPattern(as.Rhs[0]); isView {
+			viewDefs = append(viewDefs, as)
 			return true
 		}
 		d := tr.pi.info.Defs[id]
@@ -845,10 +1044,69 @@ func (tr *translator) absDefinition(defName, srcName string, fd *ast.FuncDecl, b
 		a.order = append(a.order, v.name)
 		slots = append(slots, pslot{v.name, "", true})
 	}
+	a.views = map[string]absView{}
+	for _, as := range viewDefs {
+		tbl, _, _ := tr.viewPattern(as.Rhs[0])
+		if _, isb := a.bases[tbl]; !isb {
+			fail(as, "indexed view of %s which is not an abstract object", tbl)
+		}
+		n := as.Lhs[0].(*ast.Ident).Name
+		a.views[n] = absView{table: tbl, idxVar: lv(n + "_idx_")}
+	}
 	// oracle locals must really be bound by an opaque call (checked now that the bases exist)
 	for _, o := range oracles {
 		if _, isb := a.bases[o.name]; !isb {
 			continue
+		}
+	}
+
+	// protocol objects reached through a field (self.p) on which translated, state-threaded methods are called
+	ast.Inspect(body, func(x ast.Node) bool {
+		ce, ok := x.(*ast.CallExpr)
+		if !ok {
+			return true
+		}
+		_, recvX, threaded, known := tr.calleeName(ce.Fun)
+		if !known || !threaded || recvX == nil {
+			return true
+		}
+		b, p, isPath := tr.absPath(recvX)
+		if !isPath || p == "" {
+			return true
+		}
+		for _, f := range a.foreign {
+			if f.base == b && f.path == p {
+				return true
+			}
+		}
+		rt := tr.typeOf(recvX)
+		if pt, isp := rt.(*types.Pointer); isp {
+			rt = pt.Elem()
+		}
+		nm, isn := rt.(*types.Named)
+		if !isn {
+			return true
+		}
+		fields, has := tr.stateOf(nm.Obj().Pkg().Path(), nm.Obj().Name())
+		if !has {
+			return true
+		}
+		sst := under(rt).(*types.Struct)
+		fo := absForeign{base: b, path: p, fields: fields}
+		for _, fl := range fields {
+			for i := 0; i < sst.NumFields(); i++ {
+				if sst.Field(i).Name() == fl {
+					fo.tys = append(fo.tys, tr.coqType(fd, sst.Field(i).Type()))
+				}
+			}
+		}
+		a.foreign = append(a.foreign, fo)
+		return true
+	})
+	for _, f := range a.foreign {
+		for i, v := range f.vars() {
+			stateParams = append(stateParams, "("+v+" : "+f.tys[i]+")")
+			foreignTys = append(foreignTys, f.tys[i])
 		}
 	}
 
@@ -1058,6 +1316,8 @@ func (tr *translator) absDefinition(defName, srcName string, fd *ast.FuncDecl, b
 		retTys = append(retTys, "list (Z * list Z)")
 		pre += "let eff_ := (@nil (Z * list Z)) in\n"
 	}
+	retTys = append(retTys, stateTys...)
+	retTys = append(retTys, foreignTys...)
 	ret := "unit"
 	if len(retTys) > 0 {
 		ret = strings.Join(retTys, " * ")
@@ -1082,6 +1342,7 @@ func (tr *translator) absDefinition(defName, srcName string, fd *ast.FuncDecl, b
 
 	// assemble: records, effect constants, definition
 	var sb strings.Builder
+	params = append(params, stateParams...)
 	for _, s := range slots {
 		if !s.base {
 			params = append(params, "("+lv(s.name)+" : "+s.ty+")")
@@ -1471,4 +1732,159 @@ func (tr *translator) flowStmts(list []ast.Stmt, d dirtySet) (dirtySet, bool) {
 		}
 	}
 	return d, false
+}
+
+// ---------------------------------------------------------------- condition extraction
+
+const absFloatPrelude = `(* math.IsNaN / math.IsInf on IEEE-754 binary64 bit patterns (floats are represented by their bits) *)
+Definition f64_isnan (b : Z) : bool := (Z.land (Z.shiftr b 52) 2047 =? 2047) && negb (Z.land b 4503599627370495 =? 0).
+Definition f64_isinf (b : Z) (sign : Z) : bool :=
+  (Z.land (Z.shiftr b 52) 2047 =? 2047) && (Z.land b 4503599627370495 =? 0) &&
+  (if sign >? 0 then Z.shiftr b 63 =? 0 else if sign <? 0 then Z.shiftr b 63 =? 1 else true).
+
+`
+
+// absCond: the condition of the `if` whose condition prints as the anchor, as a boolean function of its free variables
+func (tr *translator) absCond(b Block, fd *ast.FuncDecl) (def string, err error) {
+	defer func() {
+		tr.abs = nil
+		if r := recover(); r != nil {
+			if te, ok := r.(trErr); ok {
+				err = fmt.Errorf("%s", te.msg)
+				return
+			}
+			panic(r)
+		}
+	}()
+	var found []*ast.IfStmt
+	ast.Inspect(fd.Body, func(x ast.Node) bool {
+		if is, ok := x.(*ast.IfStmt); ok && srcOf(is.Cond) == b.Anchor {
+			found = append(found, is)
+		}
+		return true
+	})
+	if len(found) != 1 {
+		return "", fmt.Errorf("anchor %q matches %d if-statements in %s", b.Anchor, len(found), b.Func)
+	}
+	cond := found[0].Cond
+	tr.alias = map[string]string{}
+	tr.recvName, tr.recvState, tr.recvType = "", nil, ""
+	tr.results, tr.resultTys = nil, nil
+	tr.pending = ""
+	a := &absCtx{def: b.Name, bases: map[string]*absBase{}, funcs: map[string]bool{}, ptrSlices: map[string]bool{}, scalars: map[string]bool{}}
+	tr.abs = a
+	var vars []absVar
+	seen := map[types.Object]bool{}
+	ast.Inspect(cond, func(x ast.Node) bool {
+		id, ok := x.(*ast.Ident)
+		if !ok {
+			return true
+		}
+		v, ok := tr.pi.info.Uses[id].(*types.Var)
+		if !ok || v.IsField() || v.Parent() == tr.pi.pkg.Scope() || v.Pkg() != tr.pi.pkg || seen[v] {
+			return true
+		}
+		seen[v] = true
+		vars = append(vars, absVar{id.Name, v.Type(), v.Pos()})
+		return true
+	})
+	sort.Slice(vars, func(i, j int) bool { return vars[i].pos < vars[j].pos })
+	var params []string
+	for _, v := range vars {
+		ty, ok := tr.tryCoqType(v.typ)
+		if !ok {
+			fail(cond, "free variable %s of the condition has an untranslatable type", v.name)
+		}
+		params = append(params, "("+lv(v.name)+" : "+ty+")")
+	}
+	body := tr.expr(cond)
+	pos := fset.Position(cond.Pos())
+	return fmt.Sprintf("(* %s:%d  condition of %s: if %s *)\nDefinition %s %s : bool :=\n%s.\n", pos.Filename, pos.Line, b.Func, cm(b.Anchor), b.Name,
+		strings.Join(params, " "), body), nil
+}
+
+// ---------------------------------------------------------------- counted loops with break / continue
+
+// absFor:  for i := a; i < b; i++ { body }  with break / continue (no return inside): a local structural recursion whose fuel is the
+// exact iteration bound b - a (b must not be assigned in the body)
+func (tr *translator) absFor(s *ast.ForStmt, rest func() string) (string, bool) {
+	a := tr.abs
+	init, ok := s.Init.(*ast.AssignStmt)
+	if !ok || init.Tok != token.DEFINE || len(init.Lhs) != 1 {
+		return "", false
+	}
+	ivId, ok := init.Lhs[0].(*ast.Ident)
+	if !ok {
+		return "", false
+	}
+	cond, ok := s.Cond.(*ast.BinaryExpr)
+	if !ok || cond.Op != token.LSS {
+		return "", false
+	}
+	if id, ok := cond.X.(*ast.Ident); !ok || id.Name != ivId.Name {
+		return "", false
+	}
+	post, ok := s.Post.(*ast.IncDecStmt)
+	if !ok || post.Tok != token.INC {
+		return "", false
+	}
+	hasBranch, hasReturn := false, false
+	ast.Inspect(s.Body, func(n ast.Node) bool {
+		switch n.(type) {
+		case *ast.BranchStmt:
+			hasBranch = true
+		case *ast.ReturnStmt:
+			hasReturn = true
+		case *ast.ForStmt:
+			if n != ast.Node(s) {
+				hasReturn = true // nested loops: not handled here
+			}
+		}
+		return true
+	})
+	if hasReturn {
+		fail(s, "return or nested loop inside a counted loop")
+	}
+	if !hasBranch {
+		// plain accumulating loops keep the fold_left translation
+		return "", false
+	}
+	vars, _ := tr.assignedIn(s.Body, s.Pos())
+	iv := lv(ivId.Name)
+	for _, v := range vars {
+		if v == iv {
+			fail(s, "index variable assigned in the loop body")
+		}
+	}
+	// the bound must be loop-invariant
+	ast.Inspect(cond.Y, func(n ast.Node) bool {
+		if id, ok := n.(*ast.Ident); ok {
+			for _, v := range vars {
+				if lv(id.Name) == v {
+					fail(s, "loop bound %s is assigned in the body", id.Name)
+				}
+			}
+		}
+		return true
+	})
+	if len(vars) == 0 {
+		return rest(), true
+	}
+	a.nloop++
+	name := fmt.Sprintf("loop%d_", a.nloop)
+	fuel := fmt.Sprintf("fuel%d_", a.nloop)
+	pat, tup := tuplePat(vars)
+	lo, hi := tr.expr(init.Rhs[0]), tr.expr(cond.Y)
+	args := strings.Join(vars, " ")
+	a.loops = append(a.loops, absLoop{cont: "(" + name + " " + fuel + " (" + iv + " + 1) " + args + ")", brk: tup})
+	body := tr.stmts(s.Body.List, func() string { return "(" + name + " " + fuel + " (" + iv + " + 1) " + args + ")" })
+	a.loops = a.loops[:len(a.loops)-1]
+	var binders []string
+	for _, v := range vars {
+		binders = append(binders, "("+v+" : _)")
+	}
+	out := "let " + pat + " := (fix " + name + " (" + fuel + " : nat) (" + iv + " : Z) " + strings.Join(binders, " ") + " {struct " + fuel + "} :=\n" +
+		"match " + fuel + " with O => " + tup + " | S " + fuel + " =>\n" +
+		"if (" + iv + " <? " + hi + ") then (\n" + body + ")\nelse (\n" + tup + ") end) (Z.to_nat (" + hi + " - " + lo + ")) " + lo + " " + args + " in\n"
+	return out + rest(), true
 }
